@@ -72,7 +72,8 @@ def finalize(agg, tier):
              "refused_total", "des3_degenerate_refused", "des3_parity_noise_keys", "arc2_ekl_distinct_checked",
              "cfb_segment_sizes_AES_16", "cfb_segment_sizes_64bit_8", "ctr_counter_little_endian", "ctr_counter_suffix",
              "ctr_initial_bytes", "ctr_initial_int", "gcm_nonce_not_96", "gcm_nonce_96", "ccm_aad_header_6", "ccm_aad_header_2",
-             "ccm_declared", "ccm_undeclared", "siv_no_nonce", "siv_nonce", "chacha_seek", "arc4_drop", "bulk_cases"]
+             "ccm_declared", "ccm_undeclared", "siv_no_nonce", "siv_nonce", "chacha_seek", "chacha_walks", "chacha_walk_seek:+2^32-blocks",
+             "chacha_walk_seek:same-block", "arc4_drop", "bulk_cases"]
     for m in ("CBC", "CFB", "OFB", "CTR", "OPENPGP", "GCM", "CCM", "EAX", "OCB", "CHACHA20_POLY1305", "Salsa20", "ChaCha20"):
         need.append("libchosen:" + m)
     for m in A.CLASSIC_MODES + AEADS + ["KW", "KWP", "CHACHA20_POLY1305"]:
@@ -1129,6 +1130,65 @@ def chacha_case(ctx, key, nonce, pos, m, path="model"):
         ctx.sample(w({"ciphertext": ct.hex(), "nonce_used": used.hex()}))
 
 
+def chacha_walk(ctx, key, nonce):
+    """ONE object: a history of seek() / encrypt() steps whose positions are chosen relative to where the object is (same
+    block, neighbouring block, the same block index modulo 2^32 / 2^16 / 2^8 blocks, far away, back to 0), with and without
+    a partly used key-stream block.  Every output must be the (X)ChaCha20 key stream at the position the history implies."""
+    from Crypto.Cipher import ChaCha20
+    from ref import ciphers
+    rng = ctx.rng
+    nlen = len(nonce)
+    cname = "XChaCha20" if nlen == 24 else "ChaCha20"
+    nblocks = 1 << (64 if nlen == 8 else 32)
+    limit = 64 * nblocks
+    c = ChaCha20.new(key=key, nonce=nonce)
+    pos = 0
+    hist = []
+    for step in range(rng.choice([4, 8, 16])):
+        if step == 0 or rng.random() < 0.7:
+            blk = pos // 64
+            kind = rng.choice(["same-block", "same-block", "next-block", "prev-block", "+2^32-blocks", "-2^32-blocks", "+2^16-blocks",
+                               "+2^8-blocks", "k*2^32-blocks", "zero", "random", "same-position"])
+            off = rng.choice([0, 1, 10, 63, pos % 64])
+            nb = {"same-block": blk, "next-block": blk + 1, "prev-block": blk - 1, "+2^32-blocks": blk + (1 << 32),
+                  "-2^32-blocks": blk - (1 << 32), "+2^16-blocks": blk + (1 << 16), "+2^8-blocks": blk + 256,
+                  "k*2^32-blocks": (blk & 0xFFFFFFFF) + (rng.randrange(1 << 32) << 32), "zero": 0,
+                  "random": rng.randrange(nblocks), "same-position": blk}[kind]
+            if kind == "same-position":
+                off = pos % 64
+            if not 0 <= nb < nblocks - 8:
+                continue
+            newpos = 64 * nb + off
+            try:
+                c.seek(newpos)
+            except Exception as e:      # noqa
+                ctx.check(False, "legal-refused:%s:stream:%s" % (cname, type(e).__name__), "legal seek position refused",
+                          lambda: dict(cipher=cname, key=key.hex(), nonce=nonce.hex(), history=hist, seek=newpos, exc=repr(e)))
+                return
+            pos = newpos
+            hist.append(("seek", kind, pos))
+            ctx.count("chacha_walk_seeks")
+            ctx.count("chacha_walk_seek:" + kind)
+        n = rng.choice([0, 1, 5, 30, 63, 64, 65, 130])
+        m = rng.randbytes(n)
+        try:
+            ct = c.encrypt(m)
+        except Exception as e:      # noqa
+            ctx.check(False, "legal-refused:%s:stream:%s" % (cname, type(e).__name__), "encrypt after a legal seek refused",
+                      lambda: dict(cipher=cname, key=key.hex(), nonce=nonce.hex(), history=hist, exc=repr(e)))
+            return
+        exp = ciphers.chacha20_xor(key, nonce, m, pos)
+        hist.append(("encrypt", n))
+        ctx.case((cname, nlen, "walk", hist[-2][1] if len(hist) > 1 and hist[-2][0] == "seek" else "continue", n > 0), nontrivial=n > 0)
+        if not ctx.check(ct == exp, "spec:%s:stream:ciphertext-differs-after-seek-history" % cname,
+                         "after a history of seek()/encrypt() calls on one object the output is not the key stream at the current position",
+                         lambda: dict(cipher=cname, key=key.hex(), nonce=nonce.hex(), history=hist, position=pos, msg=m.hex(),
+                                      got=ct.hex(), expected=exp.hex())):
+            return
+        pos += n
+    ctx.count("chacha_walks")
+
+
 def _chacha_pos(rng, nlen, n=4096):
     limit_blocks = 1 << (64 if nlen == 8 else 32)
     r = rng.random()
@@ -1279,10 +1339,15 @@ def w_stream(spec, ctx):
                 chacha_case(ctx, rng.randbytes(32), rng.randbytes(nlen), rng.choice([None, _chacha_pos(rng, nlen, n)]), A.message(rng, n), "composition")
         for n in (0, 1, 65, 300):
             chacha_case(ctx, rng.randbytes(32), None, rng.choice([None, 64, 129]), A.message(rng, n))
+        for nlen in (8, 12, 24):
+            for _ in range(6):
+                chacha_walk(ctx, rng.randbytes(32), rng.randbytes(nlen))
         while not ctx.expired():
             nlen = rng.choice([8, 12, 24])
             key = A.gen_key(rng, "ChaCha20", 32, rng.choice(["random"] * 4 + ["zero", "ones", "bit"]))
-            if rng.random() < 0.12:
+            if rng.random() < 0.25:
+                chacha_walk(ctx, key, rng.randbytes(nlen))
+            elif rng.random() < 0.12:
                 chacha_case(ctx, key, None, _chacha_pos(rng, 8), A.message(rng, rng.choice(L + [rng.randint(0, 600)] * 4)))
             elif rng.random() < 0.2:
                 n = A.rand_big(rng, 64, False, 1024, big_hi)
